@@ -1,12 +1,223 @@
-//! C05 — stub (not built yet).
+//! C05 — adaptive IVP solvers finish smooth problems with order-appropriate work.
+//! Work accounting: the derivative closure counts its own invocations and enforces a hard budget,
+//! so a non-terminating solve is an observation, not a hang.
+
+use crate::gen::ivp::*;
+use crate::ivpdrv::*;
+use crate::json::J;
 use crate::report::*;
+use crate::rng::{CaseHash, Rng};
+
+/// G_s: points <= G_s (T L tol^(-1/p) + T/dt_max) + order + 2   (observed maxima in DESIGN.md C05)
+pub fn g_const(s: Solver) -> f64 {
+    match s {
+        // observed maxima of points / (T L tol^(-1/p) + T/dt_max) over 608 000 solves (thorough, seed 1)
+        Solver::RK45 => 5.0,   // 0.48
+        Solver::RK23 => 5.0,   // 0.45
+        Solver::Adams5 => 8.0, // 1.01
+        Solver::Adams3 => 5.0, // 0.55
+        Solver::BDF6 => 17.0,  // 1.33
+        Solver::BDF2 => 15.0,  // 2.93
+        Solver::Euler => f64::NAN,
+    }
+}
+
+/// kappa_s: calls <= kappa_s (points + 10)   (the +10 points pay for rejected start-ups / first trials on short paths)
+pub fn kappa(s: Solver, dim: usize) -> f64 {
+    match s {
+        // observed maxima of calls / (points + 10) over 608 000 solves
+        Solver::RK45 => 20.0,  // 9.1 (1.5 trials per accepted step when the cap is 10x the accuracy rule)
+        Solver::RK23 => 10.0,  // 4.6
+        Solver::Adams5 => 15.0, // 6.9 (every step growth costs a 4-step RK4 restart)
+        Solver::Adams3 => 6.0, // 2.9
+        // two implicit solves per step: 2d finite-difference calls + Newton + quasi-Newton iterations each
+        Solver::BDF6 | Solver::BDF2 => 3.0 * (2.0 * dim as f64 + 8.0), // 0.66 of 2(2d+8)
+        Solver::Euler => f64::NAN,
+    }
+}
 
 pub fn meta() -> CheckMeta {
-    CheckMeta { id: "C05", level: "exploration", rule: "stub".into(), assumptions: vec![], exhaustive: false, stuck_is_violation: false }
+    CheckMeta {
+        id: "C05",
+        level: "exploration",
+        rule: "cases: 6 adaptive solvers x G-ivp (incl. at-rest and relaxing members, dim 1-4) x tol 1e-9..1e-3 x dt_min <= 1e-6 dt_max, plus a BDF-tight stratum (dim >= 2, tol 1e-10..1e-9). Monitors: no Err item, path ends at t_end, points <= G_s (T L tol^(-1/p) + T/dt_max) + order + 2, derivative calls <= kappa_s (points + 10), hard budget 20x the implied total. A solve is non-trivial when it has >= 20 points and its step varied by >= 2x (growth or rejection seen); distinct = hash of (solver, problem, configuration)".into(),
+        assumptions: vec![
+            "L is the generator's Lipschitz/time-scale bound of the problem; the work bound is split into a point-count factor G_s and a calls-per-point factor kappa_s (DESIGN.md C05)".into(),
+            "budgets are counted in derivative invocations by the user closure itself, never in wall-clock time".into(),
+        ],
+        exhaustive: false,
+        stuck_is_violation: true,
+    }
 }
-pub fn stages(_ctx: &Ctx) -> Vec<Stage> {
-    vec![]
+
+fn implied_points(solver: Solver, cfg: &Cfg, lip: f64) -> f64 {
+    let t = cfg.span();
+    g_const(solver) * (t * lip * cfg.tol.powf(-1.0 / solver.est_order()) + t / cfg.dt_max) + solver.history() as f64 + 3.0
 }
-pub fn thresholds(_ctx: &Ctx, _rep: &Report) -> Vec<Threshold> {
-    vec![Threshold { what: "check not built".into(), required: 1.0, observed: 0.0 }]
+
+fn run_case(rep: &mut Report, solver: Solver, prob: &IvpProblem, cfg: &Cfg, mode: DimMode, stratum: &str) {
+    let sname = solver.name();
+    let pts_bound = implied_points(solver, cfg, prob.lip);
+    let kap = kappa(solver, prob.n);
+    let implied_calls = kap * (pts_bound + 10.0);
+    let budget = (20.0 * implied_calls) as u64;
+    let opts = Opts { budget, max_items: (20.0 * pts_bound) as usize + 100, mode, ..Default::default() };
+    let out = solve_real(solver, cfg, &prob.y0, prob, &opts);
+    rep.eval();
+    rep.count(&format!("{}/solves", sname), 1);
+    rep.count(&format!("{}/{}/solves", stratum, sname), 1);
+    let case = || J::obj().set("solver", sname).set("mode", format!("{:?}", mode)).set("stratum", stratum).set("cfg", cfg.to_json()).set("problem", prob.to_json());
+    if let Some((m, l)) = &out.panic {
+        rep.violation(&format!("{}/panic", sname), case(), format!("solver panicked: '{}' at {}", m, l));
+        return;
+    }
+    if out.build_err.is_some() {
+        rep.violation(&format!("{}/valid-config-rejected", sname), case(), format!("{:?}", out.build_err));
+        return;
+    }
+    let pts = out.ok_points();
+    if out.budget_hit || out.truncated {
+        rep.violation(
+            &format!("{}/work-budget-exhausted", sname),
+            case(),
+            format!(
+                "hard budget hit: {} derivative calls / {} points without finishing (order-appropriate total is about {:.0} calls, {:.0} points); last time reached {:?} of [{:e}, {:e}]",
+                out.calls,
+                pts.len(),
+                implied_calls,
+                pts_bound,
+                pts.last().map(|p| p.0),
+                cfg.t0,
+                cfg.t1
+            ),
+        );
+        return;
+    }
+    if let Some(e) = out.first_err() {
+        rep.violation(
+            &format!("{}/error-on-smooth-problem/{}", sname, match e {
+                ErrKind::MinDt => "MinimumTimeDeltaExceeded",
+                ErrKind::MaxIter => "MaximumIterationsExceeded",
+                ErrKind::Singular => "SingularMatrix",
+                _ => "other",
+            }),
+            case(),
+            format!("solve reported {} after {} points and {} derivative calls (dt_min = {:e} dt_max)", e.short(), pts.len(), out.calls, cfg.dt_min / cfg.dt_max),
+        );
+        return;
+    }
+    // completed: must have reached the end (exact end time is C01's statement; here: not early)
+    match pts.last() {
+        None => {
+            rep.violation(&format!("{}/stopped-early", sname), case(), "solve ended without error and without any point".into());
+            return;
+        }
+        Some((t, _)) => {
+            if !(*t >= cfg.t1 - 1e-9 * cfg.span()) {
+                rep.violation(&format!("{}/stopped-early", sname), case(), format!("solve ended without error at t={:e}, before the ending time {:e}", t, cfg.t1));
+                return;
+            }
+        }
+    }
+    let npts = pts.len() as f64;
+    let r1 = npts / pts_bound * g_const(solver);
+    rep.max(&format!("{}/points_ratio_G", sname), r1);
+    rep.max(&format!("{}/points_over_bound", sname), npts / pts_bound);
+    if !(npts <= pts_bound) {
+        rep.violation(
+            &format!("{}/too-many-points", sname),
+            case(),
+            format!("{} points for T={:.3e}, L={:.3}, tol={:.2e}, dt_max={:.3e}: bound {:.0} (G={})", npts, cfg.span(), prob.lip, cfg.tol, cfg.dt_max, pts_bound, g_const(solver)),
+        );
+        return;
+    }
+    let cpp = out.calls as f64 / (npts + 10.0);
+    rep.max(&format!("{}/calls_per_point", sname), cpp);
+    rep.max(&format!("{}/calls_per_point_over_kappa", sname), cpp / kap);
+    if !(out.calls as f64 <= kap * (npts + 10.0)) {
+        rep.violation(
+            &format!("{}/too-many-calls-per-point", sname),
+            case(),
+            format!("{} derivative calls for {} points ({:.1} per point, bound {} x (points + 10))", out.calls, npts, out.calls as f64 / npts, kap),
+        );
+        return;
+    }
+    rep.count(&format!("{}/completed", sname), 1);
+    // non-trivial: >= 20 points whose step varied by >= 2x
+    if pts.len() >= 20 {
+        let mut p = cfg.t0;
+        let mut hmin = f64::INFINITY;
+        let mut hmax: f64 = 0.0;
+        for (i, (t, _)) in pts.iter().enumerate() {
+            if i + 1 < pts.len() {
+                hmin = hmin.min(*t - p);
+                hmax = hmax.max(*t - p);
+            }
+            p = *t;
+        }
+        if hmax >= 2.0 * hmin {
+            rep.count(&format!("{}/solves_with_step_variation", sname), 1);
+            let h = CaseHash::new("c05").u(solver.idx() as u64).fs(&prob.a).fs(&prob.y0).f(cfg.t0).f(cfg.t1).f(cfg.dt_max).f(cfg.tol);
+            rep.nontrivial(h.0);
+            if rep.wants_sample() {
+                rep.sample(case().set("points", pts.len()).set("derivative_calls", out.calls).set("points_bound", pts_bound).set("step_min", hmin).set("step_max", hmax));
+            }
+        }
+    }
+}
+
+pub fn stages(ctx: &Ctx) -> Vec<Stage> {
+    let seed = ctx.seed;
+    let mut st = vec![];
+    st.push(Stage::new("anchors", 6 * 6 * 2, move |i, rep| {
+        let solver = Solver::ADAPTIVE[(i % 6) as usize];
+        let flavour = ((i / 6) % 6) as usize;
+        let k = i / 36;
+        let mut rng = Rng::for_case(9090, "c05-anchor", flavour as u64 + 10 * k);
+        let prob = IvpProblem::gen(&mut rng, 1 + (flavour + k as usize) % 4, flavour);
+        let tol = if k == 0 { 1e-5 } else { 1e-8 };
+        let dt_max = dtmax_for(solver, prob.lip, tol, 0.9) * 4.0;
+        let cfg = Cfg { t0: -1.0, t1: -1.0 + dt_max * 30.0, dt_min: dt_max * 1e-7, dt_max, tol };
+        run_case(rep, solver, &prob, &cfg, DimMode::Dynamic, "anchors");
+    }));
+    let n = ctx.tier.pick(12_000, 600_000);
+    st.push(Stage::new("random", n, move |i, rep| {
+        let mut rng = Rng::for_case(seed, "c05-random", i);
+        let solver = Solver::ADAPTIVE[(i % 6) as usize];
+        let n = 1 + rng.below(4);
+        let fl = rng.below(6);
+        let prob = IvpProblem::gen(&mut rng, n, fl);
+        let mut cfg = gen_cfg(&mut rng, solver, prob.lip, (-9.0, -3.0), (0.5, 2.5));
+        // the cap is often larger than the accuracy rule here: the solver, not the cap, must find the step
+        let f = rng.log10(0.0, 1.0);
+        cfg.dt_max *= f;
+        cfg.dt_min = cfg.dt_max * rng.log10(-8.0, -6.0);
+        cfg.t1 = cfg.t0 + cfg.dt_max * rng.log10(0.5, 2.3);
+        let mode = if rng.bool() { DimMode::Static } else { DimMode::Dynamic };
+        run_case(rep, solver, &prob, &cfg, mode, "random");
+    }));
+    // BDF-tight stratum: where a wrong finite-difference Jacobian in the implicit solve becomes
+    // observable at the API (SingularMatrix / MaximumIterationsExceeded)
+    let nb = ctx.tier.pick(400, 8_000);
+    st.push(Stage::new("bdf-tight", nb, move |i, rep| {
+        let mut rng = Rng::for_case(seed, "c05-bdf-tight", i);
+        let solver = if i % 2 == 0 { Solver::BDF2 } else { Solver::BDF6 };
+        let n = 2 + rng.below(3);
+        let fl = *rng.pick(&[0usize, 1, 2, 5]);
+        let prob = IvpProblem::gen(&mut rng, n, fl);
+        let tol = rng.log10(-10.0, -9.0);
+        let dt_max = dtmax_for(solver, prob.lip, tol, rng.r(0.5, 1.0));
+        let t0 = rng.r(-2.0, 2.0);
+        let cfg = Cfg { t0, t1: t0 + dt_max * rng.log10(1.0, 2.0), dt_min: dt_max * 1e-7, dt_max, tol };
+        run_case(rep, solver, &prob, &cfg, DimMode::Dynamic, "bdf-tight");
+    }));
+    st
+}
+
+pub fn thresholds(ctx: &Ctx, rep: &Report) -> Vec<Threshold> {
+    let mut t = vec![];
+    for s in Solver::ADAPTIVE {
+        t.push(Threshold { what: format!("{}: solves with step variation >= 2x", s.name()), required: ctx.tier.pick(20.0, 1_000.0), observed: rep.counter(&format!("{}/solves_with_step_variation", s.name())) as f64 });
+    }
+    t
 }
